@@ -231,6 +231,19 @@ class FsAudit:
                 out.append(path)
         return out
 
+    def creates(self):
+        """files opened for writing and directories created (absolute paths only: events raised with a
+        dir_fd, e.g. by the harness' own rmtree, carry bare names and are not the tool's)"""
+        out = []
+        for ev, path, mode in self.events:
+            if not path.startswith('/'):
+                continue
+            if ev == 'open' and any(c in mode for c in 'wax+'):
+                out.append(path)
+            elif ev in ('os.mkdir', 'os.rename'):
+                out.append(path)
+        return out
+
     def reads(self):
         return [p for ev, p, mode in self.events if ev == 'open' and not any(c in mode for c in 'wax+')]
 
